@@ -129,7 +129,8 @@ def native_replay(call, env, pv):
     try:
         full = dict(env)
         nat = xt.call_native(fn, bufs, full, "so-gcc")
-        out = dict(function=fn, inputs=fmt_env(env), native_outputs=nat)
+        out = dict(function=fn, inputs=fmt_env(env), native_outputs=nat, tu=xt.tu, tu_text=xt.text, tu_rules=list(xt.rules),
+                   bufs=[list(b) for b in bufs])
         if pv is not None:
             pred = {}
             for (nm, n, prec) in bufs:
@@ -164,4 +165,19 @@ def guarded(res, oid, f):
         res.add(oid, "error", "infra", 0.0, str(e))
     except Exception as e:
         res.add(oid, "error", "infra", 0.0, "%r\n%s" % (e, traceback.format_exc()[-1500:]))
+    return None
+
+
+def match_by_samples(pv, others, samplers, rng, tries=300):
+    """Find the path among `others` taken by concrete inputs that take path `pv` (used when branch conditions are
+    not structurally identical, e.g. different association order of the squared norm)."""
+    pv._sampled = 0
+    for i in range(tries):
+        env = samplers[i % len(samplers)](rng)
+        if not engine.path_holds(pv, env):
+            continue
+        pv._sampled += 1
+        hit = [o for o in others if engine.path_holds(o, env)]
+        if len(hit) == 1:
+            return hit[0]
     return None
